@@ -91,7 +91,12 @@ def check(ctx, report):
                 report.add('C02.R4', 'reviewed@' + rk, 'reviewed site changed shape: ' + reviewed[rk]['reason'])
                 continue
             if what == 'enumconv' and fname == 'ParserBinary.parse_numeric_flags':
-                continue        # discharged by the single-bit rule below
+                why = flags_conversion_total(ctx, report)
+                if why is None:
+                    continue        # single-bit members (rule below) + tabulation: the conversion is applied to members only
+                report.add('C02.R4', '%s@escape[ValueError:enumconv]' % funcs[fname].construct,
+                           'the flag conversion inside parse_numeric_flags is not confined to members of the flag class: %s' % why)
+                continue
             if e.endswith('NotImplementedError') and fname.startswith('DnsRecordDnskey.'):
                 dnskey_sites.add(fname)
                 continue        # discharged (or reported) by the data side condition below
@@ -174,6 +179,58 @@ def dnskey_side_condition(ctx, report, sites, funcs):
         elif kt == 'EDDSA' and member not in eddsa_names:
             report.add('C02.R1', 'cryptoparser/dnsrec/record.py:DnsRecordDnskey._parse_public_key_eddsa@unhandled[%s]' % name,
                        'DNSSEC algorithm %s reaches the EdDSA branch but is not one of %s: NotImplementedError escapes' % (name, sorted(eddsa_names)))
+
+
+_FLAGS_TOTAL = {}
+
+
+def flags_conversion_total(ctx, report):
+    """Evaluate the statements of ParserBinary.parse_numeric_flags over every 1 and 2 byte wire word (shift 0) and a
+    sample of shifted ones, with a model flag class of single-bit members that leaves some bits unowned: calling the
+    class on anything that is not a member raises ValueError, as enum classes do.  None when no word raises."""
+    if 'why' in _FLAGS_TOTAL:
+        return _FLAGS_TOTAL['why']
+    from ..miniexec import Evaluator, Native, Raised, Unsupported
+    f = ctx.model.cls('ParserBinary').methods.get('parse_numeric_flags')
+    report.touch(f)
+
+    class Flags(Native):
+        def __init__(self, members):
+            self.members = list(members)
+
+        def __iter__(self):
+            return iter(self.members)
+
+        def __call__(self, v):
+            if v not in self.members:
+                raise ValueError('%#x is not a valid flag' % v)
+            return v
+
+    class State(Native):
+        def __init__(self, wire):
+            self._parsed_length, self._parsed_values, self.wire = 0, {}, wire
+
+        def _parse_numeric_array(self, name, item_num, item_size, cls_):
+            return [self.wire], item_size
+    why = None
+    n = 0
+    try:
+        for size, shift, members, words in ((1, 0, (0x01, 0x02, 0x10, 0x80), range(256)),
+                                            (2, 0, (0x0001, 0x0100, 0x0200, 0x8000), range(0, 65536, 1)),
+                                            (2, 16, (0x1, 0x10000, 0x200000, 0x80000000), range(0, 65536, 251))):
+            fl = Flags(members)
+            for w in words:
+                n += 1
+                me = State(w)
+                Evaluator({'self': me, 'name': 'f', 'size': size, 'flags_class': fl, 'shift_left': shift}, None,
+                          lambda name: int if name == 'int' else (_ for _ in ()).throw(Unsupported('free name ' + name))).function(f.node)
+    except Raised as e:
+        why = 'wire word %#x (%d byte(s), shift %d, members %s) raises %s' % (w, size, shift, [hex(m) for m in members], e.what)
+    except Unsupported as e:
+        why = 'the function left the subset the tabulation understands (%s), so the conversion is not discharged' % e
+    report.sample({'rule': 'C02.R4', 'site': 'ParserBinary.parse_numeric_flags', 'tabulated_wire_words': n, 'verdict': why or 'no word raises'})
+    _FLAGS_TOTAL['why'] = why
+    return why
 
 
 def flags_single_bit(ctx, es, report):
